@@ -187,6 +187,15 @@ def call_impl(case, obj):
             except Exception:
                 pass
             arr.values[...] = real
+        elif isinstance(arr.variable._data, np.ndarray) and zlib.crc32(np.ascontiguousarray(arr.values).tobytes()) % 4 == 1:
+            # one accessor call in four: the object has a history (gen.primed) — the same Python object held other axes / other
+            # energy when its accessor first smoothed, and was edited in place (coords[...] = / ds["efth"] = ) into what it holds now
+            from .. import gen as _gen
+            import xarray as xr
+
+            h = zlib.crc32(np.ascontiguousarray(arr.values).tobytes())
+            obj = _gen.primed(obj, lambda o: (o.spec.smooth(freq_window=case["fw"], dir_window=case["dw"]), o.spec.hs()),
+                              variant=(h // 4) % 3 if isinstance(obj, xr.Dataset) else 0)
         return obj.spec.smooth(freq_window=case["fw"], dir_window=case["dw"])
     return smooth_spec(obj, freq_window=case["fw"], dir_window=case["dw"])
 
